@@ -33,6 +33,8 @@ def install(names, fallthrough_log, state=None):
         from models import np_model
         mapping.append((numpy, np_model.make_proxy(numpy, fallthrough_log)))
         mapping.append((numpy.ndarray, np_model.NDArray))
+        if state is not None:
+            state.path_hooks.append(np_model.RANDOM.reset)
     for extra in ("sp", "mp", "pd", "misc"):
         if extra in names:
             mod = __import__(f"models.{extra}_model", fromlist=["x"])
